@@ -2,22 +2,46 @@ module verifharness
 
 go 1.21
 
-require github.com/youchainhq/go-youchain v0.0.0
+require (
+	github.com/youchainhq/go-youchain v0.0.0
+	gonum.org/v1/gonum v0.0.0-20190628223043-536a303fd62f
+)
 
 require (
+	github.com/ALTree/bigfloat v0.0.0-20180506151649-b176f1e721fc // indirect
 	github.com/aristanetworks/goarista v0.0.0-20180907105523-ff33da284e76 // indirect
+	github.com/ccding/go-stun v0.1.2 // indirect
+	github.com/cheekybits/genny v1.0.0 // indirect
+	github.com/deckarep/golang-set v1.7.1 // indirect
 	github.com/go-stack/stack v1.8.0 // indirect
+	github.com/golang/protobuf v1.3.0 // indirect
 	github.com/golang/snappy v0.0.1 // indirect
 	github.com/hashicorp/golang-lru v0.5.0 // indirect
+	github.com/huin/goupnp v0.0.0-20180415215157-1395d1447324 // indirect
 	github.com/influxdata/influxdb1-client v0.0.0-20190402204710-8ff2fc3824fc // indirect
+	github.com/jackpal/go-nat-pmp v0.0.0-20170405195558-28a68d0c24ad // indirect
+	github.com/lucas-clemente/quic-go v0.14.5 // indirect
+	github.com/marten-seemann/qtls v0.4.1 // indirect
 	github.com/mattn/go-colorable v0.0.9 // indirect
 	github.com/mattn/go-isatty v0.0.9 // indirect
+	github.com/minio/blake2b-simd v0.0.0-20160723061019-3f5f724cb5b1 // indirect
+	github.com/minio/sha256-simd v0.1.1-0.20190913151208-6de447530771 // indirect
+	github.com/mr-tron/base58 v1.1.3 // indirect
+	github.com/multiformats/go-multiaddr v0.0.0-20180721003118-d6ad8896def6 // indirect
+	github.com/multiformats/go-multihash v0.0.13 // indirect
+	github.com/multiformats/go-varint v0.0.5 // indirect
 	github.com/nanyan/golz4 v1.0.0 // indirect
+	github.com/pborman/uuid v0.0.0-20180827223501-4c1ecd6722e8 // indirect
 	github.com/rcrowley/go-metrics v0.0.0-20190826022208-cac0b30c2563 // indirect
+	github.com/rs/cors v0.0.0-20180826180256-dc7332ab32be // indirect
+	github.com/spaolacci/murmur3 v1.1.0 // indirect
 	github.com/syndtr/goleveldb v1.0.0 // indirect
 	github.com/youchainhq/bls v0.9.0 // indirect
 	golang.org/x/crypto v0.0.0-20200423211502-4bdfaf469ed5 // indirect
+	golang.org/x/exp v0.0.0-20190125153040-c74c464bbbf2 // indirect
+	golang.org/x/net v0.0.0-20200226121028-0de0cce0169b // indirect
 	golang.org/x/sys v0.0.0-20190904154756-749cb33beabd // indirect
+	golang.org/x/text v0.3.0 // indirect
 	gopkg.in/karalabe/cookiejar.v2 v2.0.0-20150724131613-8dcd6a7f4951 // indirect
 	gopkg.in/natefinch/lumberjack.v2 v2.0.0-20170531160350-a96e63847dc3 // indirect
 )
